@@ -42,7 +42,7 @@ def run(rep, pool, driver, tier):
         njs = [r.choice([1, 2, 3, 4])] if quick else [1, 2, 4]
         for nj in njs:
             n_jobs_total = n // per + 6
-            mode = r.choice(['none', 'random', 'last_slow', 'first_slow'])
+            mode = r.choice(['none', 'random', 'last_slow', 'first_slow', 'real_very_slow', 'real_very_slow'])
             delays = [0] * n_jobs_total
             if mode == 'random':
                 delays = [r.choice([0, 0, 20, 60, 150]) for _ in range(n_jobs_total)]
@@ -50,6 +50,10 @@ def run(rep, pool, driver, tier):
                 delays[n // per] = 300
             elif mode == 'first_slow':
                 delays[0] = 300
+            elif mode == 'real_very_slow':
+                # a job that holds real events outlives the 1 s polling interval of the submit loop
+                # and the job that closes the pool: it must still be joined, not terminated
+                delays[r.randrange(0, max(1, n // per))] = r.choice([1300, 2200])
             tasks.append({'op': 'create_chunks', 'events': es, 'n_cues': n_cues, 'n_outs': n_outs, 'per': per,
                           'n_jobs': nj, 'policy': 'error', 'delays': delays, 'delay_mode': mode})
     impls = pool.map(tasks)
